@@ -25,7 +25,7 @@ def nl_atoms():
 DEFS = [("NLDEF", "[ \\n]"), ("NEGDEF", "[^a]")]
 
 
-def pattern_groups(L, action="{ }", api="NR", prefix="N", vartrail=True):
+def pattern_groups(L, action="{ }", api="NR", prefix="N", vartrail=True, bol=False):
     atoms = nl_atoms()
     forms = []
     for t, a in atoms:
@@ -43,6 +43,9 @@ def pattern_groups(L, action="{ }", api="NR", prefix="N", vartrail=True):
         ("a\\n/b", R.cat(A, NL), B, False), ("a/[^a]", A, ('set', frozenset(R.ALL - {97})), False),
         ("a\\n/\\nb", R.cat(A, NL), R.cat(NL, B), False), ("[^b]+/\\n\\n", R.plus(('set', frozenset(R.ALL - {98}))), R.cat(NL, NL), False),
         ("a*\\n/\\n*b", R.cat(R.star(A), NL), R.cat(R.star(NL), B), False),
+        ("a/\\n+", A, R.plus(NL), False), ("ab/\\n*b", R.cat(A, B), R.cat(R.star(NL), B), False),
+        ("a/[a\\n]+b", A, R.cat(R.plus(('set', frozenset({97, 10}))), B), False), ("a\\n/\\n+", R.cat(A, NL), R.plus(NL), False),
+        ("[ab]/(\\n|\\n\\n)", ('set', frozenset({97, 98})), R.alt(NL, R.cat(NL, NL)), False),
     ]
     for i, (t, h, tr, eol) in enumerate(tc):
         if not vartrail and t == "a*\\n/\\n*b":
@@ -50,6 +53,14 @@ def pattern_groups(L, action="{ }", api="NR", prefix="N", vartrail=True):
         name = "%sT%d" % (prefix, i)
         rules = [H.Rule(h, trail=tr, eol=eol, scs=[name], text=t, action=action), H.Rule(NL, scs=[name], action=action)]
         groups.append(H.Group([(name, True)], rules, name, ALPHA, L, label="nl-trail:" + t))
+    if bol:
+        # '^' rules (only generated for harnesses that do not use yyless/yyunput)
+        bl = [("^a\\n", R.cat(A, NL)), ("^\\n", NL), ("^[^b]+", R.plus(('set', frozenset(R.ALL - {98})))), ("^a", A), ("^b\\n?", R.cat(B, R.opt(NL)))]
+        for i, (t, a) in enumerate(bl):
+            name = "%sB%d" % (prefix, i)
+            rules = [H.Rule(a, scs=[name], bol=True, text=t, action=action), H.Rule(NL, scs=[name], action=action),
+                     H.Rule(A, scs=[name], action=action)]
+            groups.append(H.Group([(name, True)], rules, name, ALPHA, L, label="nl-bol:" + t))
     # '|' chained actions: the first rule's text has the newline, the action belongs to the next rule
     chains = [("a\\n", R.cat(A, NL), "b", B), ("[^a]", ('set', frozenset(R.ALL - {97})), "aa", R.cat(A, A)),
               ("b", B, "a\\n", R.cat(A, NL)), ("(?s:.)a", R.cat(('set', R.ALL), A), "b+", R.plus(B))]
@@ -76,7 +87,7 @@ def run(tier):
             jobs.append(j)
 
     base = {"VF_CHECK_LINENO": 1}
-    J("plain", pattern_groups(L), base, options=["yylineno"])
+    J("plain", pattern_groups(L, bol=True), base, options=["yylineno"])
     J("Cf", pattern_groups(L - 1, vartrail=False), base, options=["yylineno"], flex_args=["-Cf"])
     J("R", pattern_groups(L - 1, api="R"), base, options=["yylineno", "reentrant"], api="R")
     J("C99", pattern_groups(L - 1, api="C99"), base, options=["yylineno"], api="C99")
@@ -94,6 +105,13 @@ def run(tier):
     J("array-ops", pattern_groups(L - 1, H.ops_action([H.OP_LESS, H.OP_UNPUT, H.OP_INPUT1, H.OP_MORE])),
       dict(base, VF_OPMASK=H.opmask(H.OP_LESS, H.OP_UNPUT, H.OP_INPUT1, H.OP_MORE), VF_BUDGET_DEFAULT=1, VF_BUDGET_TOTAL=1,
            VF_UNPUT_CHARS='"a\\n"'), options=["yylineno", "array"], cdefs=["VF_ARRAY"], per=40)
+    for api in ("NR", "R", "C99"):
+        io = [H.OP_INPUT1, H.OP_INPUT2, H.OP_SETLINE]
+        gs = [g for g in pattern_groups(L - 1, H.ops_action(io, api), api, bol=True) if g.label.startswith("nl-bol")]
+        o = ["reentrant"] if api == "R" else []
+        J("bol-input-" + api, gs, dict(base, VF_OPMASK=H.opmask(*io), VF_BUDGET_DEFAULT=2, VF_BUDGET_TOTAL=2), api=api, options=o + ["yylineno"])
+        J("bol-input-frozen-" + api, gs, {"VF_CHECK_LINENO": 1, "VF_LINENO_FROZEN": 1, "VF_OPMASK": H.opmask(*io), "VF_BUDGET_DEFAULT": 2,
+                                          "VF_BUDGET_TOTAL": 2}, api=api, options=o)
     # without %option yylineno the line number is never modified (only the user sets it)
     for api in ("NR", "R", "C99"):
         ops = [H.OP_SETLINE, H.OP_LESS, H.OP_INPUT1, H.OP_UNPUT]
